@@ -284,23 +284,27 @@ Definition token_eqb (a b : token) : bool :=
 (* ---------------------------------------------------------------- correspondence cases *)
 (* one observation of the implementation: the expression, pretty or not, the tokens of the text Unparser::expr_to_sql(..).to_string()
    (None: the text contains a comment), sqlparser's own parse of that text (None: not recorded; Some None: parse error), and whether
-   SessionContext::parse_sql_expr(text) gave back an Expr equal to the original *)
+   SessionContext::parse_sql_expr(text) gave back an Expr equal to the original (None: the planner rejected the parsed text for a
+   reason that is not syntax, e.g. operand types) *)
 Inductive c38_case : Set :=
-  C38Case (pretty : bool) (e : expr) (toks : option (list token)) (reparsed : option (option ast)) (struct_ok : bool).
+  C38Case (pretty : bool) (e : expr) (toks : option (list token)) (reparsed : option (option ast)) (struct_ok : option bool).
 
 Definition c38_check (c : c38_case) : bool :=
   match c with
   | C38Case pretty e toks reparsed struct_ok =>
       let a := unparse pretty e in
       match toks with
-      | None => hazard a && negb struct_ok
+      | None => hazard a && negb (opt_eqb Bool.eqb struct_ok (Some true))
       | Some ts =>
           negb (hazard a) && list_eqb token_eqb ts (show a) &&
           match reparsed with
           | None => true
           | Some r =>
               opt_eqb ast_eqb (parse sq_tab ts) r &&
-              Bool.eqb struct_ok (match r with Some a' => expr_eqb (strip a') e | None => false end)
+              match struct_ok with
+              | Some b => Bool.eqb b (match r with Some a' => expr_eqb (strip a') e | None => false end)
+              | None => true
+              end
           end
       end
   end.
